@@ -30,7 +30,8 @@ ASSUMPTIONS = [
     "async endpoints, unlimited/limited timeouts, other call orders, short/refused writes and the agreement of the reference "
     "engine with OpenSSL rest on the pairing matrix run here (complete in the thorough tier)",
 ]
-TRUSTED = ["system OpenSSL 3 (libssl/libcrypto)", "link-time interposition of SSL_read/SSL_write_ex/BIO_get_data in the harness"]
+TRUSTED = ["tools/cxx2lean_tls.py stage 5 (DESIGN.md 0.7.4): the TLS glue over Gen.TlsWorld (fields as world state, libssl and the socket layer as world calls, UnderDeadline inlined, switch / counted for loops, asserts skipped = NDEBUG); Model/GenTlsWorld.lean reads Model/Tls.lean + Net.lean as that interface (SSL_ERROR_* numbers, ms clock in ns, interp as the engine call); the retry loops Read/Write and interp are not tied",
+           "system OpenSSL 3 (libssl/libcrypto)", "link-time interposition of SSL_read/SSL_write_ex/BIO_get_data in the harness"]
 ALL_TAGS = ["send.unlimited", "send.zero", "send.limited", "recv.unlimited", "recv.zero", "recv.limited",
             "query.pollout", "query.suppressed", "query.idle", "task.readable", "task.writable", "task.pending",
             "step.idle", "enq", "query.received"]
